@@ -384,3 +384,70 @@ func TestC14Unique(t *testing.T) {
 		Check: c14Check,
 	})
 }
+
+// long histories for the de-duplicating logger: thousands of distinct hosts, each seen again later
+type c14LargeCase struct {
+	Hosts  int    `json:"distinct_hosts"`
+	Rounds int    `json:"rounds"`
+	Mix    uint64 `json:"order_seed"`
+}
+
+func c14Expand(c c14LargeCase) c14Case {
+	out := c14Case{Unique: true}
+	x := c.Mix | 1
+	next := func(n int) int {
+		x ^= x << 13
+		x ^= x >> 7
+		x ^= x << 17
+		return int(x % uint64(n))
+	}
+	host := func(i int) []byte { return []byte(fmt.Sprintf("10.%d.%d.%d", i>>16&255, i>>8&255, i&255)) }
+	for r := 0; r < c.Rounds; r++ {
+		// every round visits all hosts in a scrambled order, with occasional immediate repeats
+		perm := make([]int, c.Hosts)
+		for i := range perm {
+			perm[i] = i
+		}
+		for i := len(perm) - 1; i > 0; i-- {
+			j := next(i + 1)
+			perm[i], perm[j] = perm[j], perm[i]
+		}
+		for _, h := range perm {
+			mac := []byte(fmt.Sprintf("02:00:%02x:%02x:%02x:%02x", r, h>>16&255, h>>8&255, h&255))
+			out.Results = append(out.Results, c14Res{Kind: "arp", S1: host(h), S2: mac, S3: []byte("v")})
+			if next(16) == 0 {
+				out.Results = append(out.Results, c14Res{Kind: "arp", S1: host(h), S2: mac, S3: []byte("again")})
+			}
+		}
+	}
+	return out
+}
+
+func TestC14UniqueLarge(t *testing.T) {
+	kit.Run(t, kit.Spec[c14LargeCase]{
+		Prop: "C14",
+		Rule: "de-duplicating logger with long histories: 2..6000 distinct hosts, 2..4 live rounds, each round visiting every host in a scrambled order with occasional immediate repeats (ARP results); oracle: output = each host exactly once, at its first sighting, in order. non-trivial: >=2 hosts; distinct by case",
+		Gen: func(t *rapid.T) c14LargeCase {
+			return c14LargeCase{Hosts: rapid.SampledFrom([]int{2, 50, 255, 1000, 1024, 1025, 2049, 4097, 6000}).Draw(t, "hosts"),
+				Rounds: rapid.IntRange(2, 4).Draw(t, "rounds"), Mix: rapid.Uint64().Draw(t, "mix")}
+		},
+		Check: func(c c14LargeCase) *kit.Verdict {
+			v := c14Check(c14Expand(c))
+			v.NonTrivial = c.Hosts >= 2
+			v.Label("hosts=%s", bucket14(c.Hosts))
+			return v
+		},
+	})
+}
+
+func bucket14(n int) string {
+	switch {
+	case n <= 255:
+		return "<=255"
+	case n <= 1024:
+		return "256..1024"
+	case n <= 4096:
+		return "1025..4096"
+	}
+	return ">4096"
+}
